@@ -36,6 +36,35 @@ class InjectedKey(KeyError):
     pass
 
 
+# the library uses these types for its own control flow (`except RuntimeError:  # no frames`, `except (ValueError, IndexError)`,
+# `except StopIteration`, `except AttributeError`, `except TypeError`): a HOOK that raises one of them is still a fault to report
+class InjectedRuntime(RuntimeError):
+    pass
+
+
+class InjectedIndex(IndexError):
+    pass
+
+
+class InjectedAttribute(AttributeError):
+    pass
+
+
+class InjectedValue(ValueError):
+    pass
+
+
+class InjectedType(TypeError):
+    pass
+
+
+class InjectedStop(StopIteration):
+    pass
+
+
+FAULT_KINDS = [Injected, InjectedKey, InjectedRuntime, InjectedIndex, InjectedAttribute, InjectedValue, InjectedType, InjectedStop]
+
+
 # ----------------------------------------------------------------- scenarios
 def _noop(*a: Any) -> None:
     return None
@@ -74,6 +103,16 @@ def inner_cm():
 async def a_outer_cm():
     async with CM("a-inner"):
         yield 2
+
+
+# hooks that do nothing, registered so that the dispatcher is actually invoked for these managers (the glue asks
+# `mgr_code in unwrap_context_generator.registry` first): a fault in such a hook must be reported like any other
+def _no_unwrap(frame: Any, context: Any) -> Any:
+    return None
+
+
+for _cm in (inner_cm, a_outer_cm):
+    stackscope.unwrap_context_generator.register(_cm)(_no_unwrap)
 
 
 @types.coroutine
@@ -220,8 +259,10 @@ class Injector:
             self.trace.append(site)
         for k in self.ks:
             if self.counter == k:  # symbolic comparison
+                if FAULT_KINDS[self.kind] is InjectedStop and site.startswith("FrameIterator"):
+                    continue      # StopIteration out of an iterator's __next__ is the protocol's normal end, not a fault
                 b = self.builds[-1] if self.builds else {"id": -1, "constructed": 0, "cur": None, "yielded": 0}
-                exc = (InjectedKey if self.kind else Injected)(f"injected at invocation {self.counter} ({site})")
+                exc = FAULT_KINDS[self.kind](f"injected at invocation {self.counter} ({site})")
                 self.records.append({"exc": exc, "site": site, "n": self.counter, "build": b["id"],
                                      "constructed": b["constructed"], "yielded": b["yielded"], "cur": b["cur"], "depth": len(self.builds)})
                 raise exc
@@ -436,7 +477,7 @@ def _shard(sh: Dict[str, Any]) -> Dict[str, Any]:
     maxinv = [0]
 
     def harness(e: Engine) -> None:
-        kind = e.choice("fault_kind", 2)
+        kind = e.choice("fault_kind", 2 if pairs else len(FAULT_KINDS))
         after = e.flag("fault_after_the_hook_ran") if not pairs else False
         k = e.int("k", 1, None)
         ks = [k]
@@ -523,7 +564,7 @@ def run(rep: Any, tier: str, seed: int) -> None:
     rep.engine_name = f"symx (z3 {z3.get_version_string()})"
     rep.functions = FUNCTIONS
     rep.bounds = {"scenarios": [s for s, _ in SCENARIOS], "fault index k": "every integer >= 1 (unbounded z3 Int; one path per dynamic hook invocation + the beyond-the-end class)",
-                  "fault pairs": "every k < k2 (quick: scenarios S1, S3a, S5; thorough: all)", "fault kinds": ["Exception subclass", "KeyError subclass"], "fault phase": "instead of the hook, or after the hook has run to completion (single faults)",
+                  "fault pairs": "every k < k2 (quick: scenarios S1, S3a, S5; thorough: all)", "fault kinds": "single faults: subclasses of " + ", ".join(k.__mro__[1].__name__ for k in FAULT_KINDS) + "; pairs: the first two", "fault phase": "instead of the hook, or after the hook has run to completion (single faults)",
                   "fault sites": [n for _, n in Injector.SITES] + ["FrameIterator.__next__"]}
     rep.outside = ["BaseExceptions raised by hooks", "faults inside CPython itself", "scenarios outside the corpus"]
     rep.stubs = ["fault injectors: transparent wrappers rebinding the dispatcher names in _extract/_glue and FrameIterator.__next__ for one path",
